@@ -76,7 +76,7 @@ class C12(Prop):
     exhaustive = {"quick": True, "thorough": True}
     nshards = {"quick": 2, "thorough": 2}
 
-    def worker_pyflags(self, shard):
+    def worker_pyflags(self, shard, nshards=1):
         # the complete enumeration once more under python -O (rejections written as assertions vanish there);
         # icontract switches itself off under -O, the direct comparisons below do not
         return ["-O"] if shard == 1 else []
